@@ -2,6 +2,7 @@ package checks
 
 import (
 	"fmt"
+	"strings"
 
 	cose "github.com/veraison/go-cose"
 
@@ -546,6 +547,186 @@ func runC02(c *Ctx) {
 		}
 	})
 
+	// ---- (e) arguments for which no Sig_structure exists: a key is never handed anything else ----
+	// nil payload, empty signature on the verify side, a body_protected argument or a caller-supplied
+	// RawProtected that is not exactly one definite-length byte string: the call fails without consulting
+	// the key, or (where the bytes can be read as a byte string) the key sees the RFC structure over
+	// that byte string's content with a shortest-form head.
+	{
+		type rawCase struct {
+			name    string
+			raw     []byte
+			content []byte // content when the bytes are one well-formed definite bstr; nil = must be refused
+		}
+		a1 := []byte{0xa1, 0x01, 0x26}
+		rawCases := []rawCase{
+			{"map-not-bstr", []byte{0xa1, 0x01, 0x26}, nil},
+			{"array", []byte{0x80}, nil},
+			{"tstr", []byte{0x63, 0xa1, 0x01, 0x26}, nil},
+			{"truncated", []byte{0x58, 0x05, 0xa1, 0x01, 0x26}, nil},
+			{"trailing-byte", []byte{0x43, 0xa1, 0x01, 0x26, 0x00}, nil},
+			{"indefinite", []byte{0x5f, 0x43, 0xa1, 0x01, 0x26, 0xff}, nil},
+			{"null", []byte{0xf6}, nil},
+			{"tagged-bstr", []byte{0xc1, 0x43, 0xa1, 0x01, 0x26}, nil},
+			{"shortest", []byte{0x43, 0xa1, 0x01, 0x26}, a1},
+			{"1-byte-length", []byte{0x58, 0x03, 0xa1, 0x01, 0x26}, a1},
+			{"2-byte-length", []byte{0x59, 0x00, 0x03, 0xa1, 0x01, 0x26}, a1},
+			{"4-byte-length", []byte{0x5a, 0, 0, 0, 0x03, 0xa1, 0x01, 0x26}, a1},
+			{"8-byte-length", []byte{0x5b, 0, 0, 0, 0, 0, 0, 0, 0x03, 0xa1, 0x01, 0x26}, a1},
+			{"8-byte-length-high-bits", []byte{0x5b, 0, 0, 0, 1, 0, 0, 0, 0x03, 0xa1, 0x01, 0x26}, nil},
+		}
+		payload := []byte("payload")
+		for _, rc := range rawCases {
+			for _, ext := range [][]byte{nil, []byte("ext")} {
+				type call struct {
+					name string
+					sign func(s cose.Signer) error
+					ver  func(v cose.Verifier) error
+					want func() []byte
+				}
+				calls := []call{
+					{"Sign1Message(RawProtected)",
+						func(sg cose.Signer) error {
+							return (&cose.Sign1Message{Headers: cose.Headers{RawProtected: rc.raw, Protected: cose.ProtectedHeader{int64(1): cose.AlgorithmES256}}, Payload: payload}).Sign(gen.Entropy, ext, sg)
+						},
+						func(v cose.Verifier) error {
+							return (&cose.Sign1Message{Headers: cose.Headers{RawProtected: rc.raw, Protected: cose.ProtectedHeader{int64(1): cose.AlgorithmES256}}, Payload: payload, Signature: mon.FixedSig}).Verify(ext, v)
+						},
+						func() []byte { return refcose.Sign1Structure(rc.content, ext, payload) }},
+					{"Signature(body_protected argument)",
+						func(sg cose.Signer) error {
+							return (&cose.Signature{Headers: cose.Headers{Protected: cose.ProtectedHeader{int64(1): cose.AlgorithmES256}}}).Sign(gen.Entropy, sg, rc.raw, payload, ext)
+						},
+						func(v cose.Verifier) error {
+							return (&cose.Signature{Headers: cose.Headers{Protected: cose.ProtectedHeader{int64(1): cose.AlgorithmES256}}, Signature: mon.FixedSig}).Verify(v, rc.raw, payload, ext)
+						},
+						func() []byte { return refcose.SignatureStructure(rc.content, a1, ext, payload) }},
+					{"Signature(RawProtected)",
+						func(sg cose.Signer) error {
+							return (&cose.Signature{Headers: cose.Headers{RawProtected: rc.raw, Protected: cose.ProtectedHeader{int64(1): cose.AlgorithmES256}}}).Sign(gen.Entropy, sg, []byte{0x40}, payload, ext)
+						},
+						func(v cose.Verifier) error {
+							return (&cose.Signature{Headers: cose.Headers{RawProtected: rc.raw, Protected: cose.ProtectedHeader{int64(1): cose.AlgorithmES256}}, Signature: mon.FixedSig}).Verify(v, []byte{0x40}, payload, ext)
+						},
+						func() []byte { return refcose.SignatureStructure(nil, rc.content, ext, payload) }},
+					{"SignMessage(body RawProtected)",
+						func(sg cose.Signer) error {
+							m := &cose.SignMessage{Headers: cose.Headers{RawProtected: rc.raw}, Payload: payload, Signatures: []*cose.Signature{{Headers: cose.Headers{Protected: cose.ProtectedHeader{int64(1): cose.AlgorithmES256}}}}}
+							return m.Sign(gen.Entropy, ext, sg)
+						},
+						func(v cose.Verifier) error {
+							m := &cose.SignMessage{Headers: cose.Headers{RawProtected: rc.raw}, Payload: payload, Signatures: []*cose.Signature{{Headers: cose.Headers{Protected: cose.ProtectedHeader{int64(1): cose.AlgorithmES256}}, Signature: mon.FixedSig}}}
+							return m.Verify(ext, v)
+						},
+						func() []byte { return refcose.SignatureStructure(rc.content, a1, ext, payload) }},
+				}
+				for _, cl := range calls {
+					sspy := &mon.SpySigner{Alg: cose.AlgorithmES256}
+					vspy := &mon.SpyVerifier{Alg: cose.AlgorithmES256}
+					cell := fmt.Sprintf("hostile-argument/%s/%s/ext=%s", cl.name, rc.name, gen.ExternalClass(ext))
+					in := map[string]any{"cell": cell, "bytes": hexs(rc.raw)}
+					var e1, e2 error
+					if guard(rec, cl.name, in, func() { e1 = cl.sign(sspy); e2 = cl.ver(vspy) }) {
+						continue
+					}
+					rec.Eval(2)
+					rec.Event("hostile-argument-cases")
+					rec.Class(cell)
+					for _, side := range []struct {
+						what  string
+						calls int
+						last  []byte
+						err   error
+					}{{"signer", sspy.Calls, sspy.Last(), e1}, {"verifier", vspy.Calls, vspy.Last(), e2}} {
+						if side.calls == 0 {
+							if side.err == nil {
+								rec.Violate("no-structure", cell+"/"+side.what, "the call returned nil without consulting the key", in)
+							}
+							rec.Event("hostile-argument:refused")
+							continue
+						}
+						rec.Event("hostile-argument:key-consulted")
+						if rc.content == nil {
+							rec.Violate("no-structure", cell+"/"+side.what, fmt.Sprintf("the %s was handed %s although the protected bytes are not one definite-length byte string", side.what, hexs(side.last)), in)
+						} else if !eqBytes(side.last, cl.want()) {
+							rec.Violate("tbs-mismatch", cell+"/"+side.what, fmt.Sprintf("%s got %s\nreference %s", side.what, hexs(side.last), hexs(cl.want())), in)
+						}
+					}
+				}
+			}
+		}
+		// nil payload (detached content not supplied) and empty signatures
+		for _, ext := range [][]byte{nil, []byte("ext")} {
+			hp := func() cose.Headers {
+				return cose.Headers{Protected: cose.ProtectedHeader{int64(1): cose.AlgorithmES256}, Unprotected: cose.UnprotectedHeader{}}
+			}
+			type nc struct {
+				name string
+				run  func(sg cose.Signer, v cose.Verifier) error
+			}
+			ncs := []nc{
+				{"Sign1Message.Sign(nil payload)", func(sg cose.Signer, v cose.Verifier) error {
+					return (&cose.Sign1Message{Headers: hp()}).Sign(gen.Entropy, ext, sg)
+				}},
+				{"Sign1Message.Verify(nil payload)", func(sg cose.Signer, v cose.Verifier) error {
+					return (&cose.Sign1Message{Headers: hp(), Signature: mon.FixedSig}).Verify(ext, v)
+				}},
+				{"Sign1Message.Verify(nil signature)", func(sg cose.Signer, v cose.Verifier) error {
+					return (&cose.Sign1Message{Headers: hp(), Payload: payload}).Verify(ext, v)
+				}},
+				{"Sign1Message.Verify(empty signature)", func(sg cose.Signer, v cose.Verifier) error {
+					return (&cose.Sign1Message{Headers: hp(), Payload: payload, Signature: []byte{}}).Verify(ext, v)
+				}},
+				{"UntaggedSign1Message.Verify(empty signature)", func(sg cose.Signer, v cose.Verifier) error {
+					return (&cose.UntaggedSign1Message{Headers: hp(), Payload: payload, Signature: []byte{}}).Verify(ext, v)
+				}},
+				{"Sign1(nil payload)", func(sg cose.Signer, v cose.Verifier) error {
+					_, err := cose.Sign1(gen.Entropy, sg, hp(), nil, ext)
+					return err
+				}},
+				{"Signature.Sign(nil payload)", func(sg cose.Signer, v cose.Verifier) error {
+					return (&cose.Signature{Headers: hp()}).Sign(gen.Entropy, sg, []byte{0x40}, nil, ext)
+				}},
+				{"Signature.Verify(nil payload)", func(sg cose.Signer, v cose.Verifier) error {
+					return (&cose.Signature{Headers: hp(), Signature: mon.FixedSig}).Verify(v, []byte{0x40}, nil, ext)
+				}},
+				{"Signature.Verify(empty signature)", func(sg cose.Signer, v cose.Verifier) error {
+					return (&cose.Signature{Headers: hp(), Signature: []byte{}}).Verify(v, []byte{0x40}, payload, ext)
+				}},
+				{"SignMessage.Sign(nil payload)", func(sg cose.Signer, v cose.Verifier) error {
+					return (&cose.SignMessage{Signatures: []*cose.Signature{{Headers: hp()}}}).Sign(gen.Entropy, ext, sg)
+				}},
+				{"SignMessage.Verify(nil payload)", func(sg cose.Signer, v cose.Verifier) error {
+					return (&cose.SignMessage{Signatures: []*cose.Signature{{Headers: hp(), Signature: mon.FixedSig}}}).Verify(ext, v)
+				}},
+				{"Countersignature.Verify(empty signature)", func(sg cose.Signer, v cose.Verifier) error {
+					parent := &cose.Sign1Message{Headers: hp(), Payload: payload, Signature: mon.FixedSig}
+					return (&cose.Countersignature{Headers: hp(), Signature: []byte{}}).Verify(v, parent, ext)
+				}},
+			}
+			for _, x := range ncs {
+				sspy := &mon.SpySigner{Alg: cose.AlgorithmES256}
+				vspy := &mon.SpyVerifier{Alg: cose.AlgorithmES256}
+				cell := "no-structure/" + x.name + "/ext=" + gen.ExternalClass(ext)
+				in := map[string]any{"cell": cell}
+				var err error
+				if guard(rec, x.name, in, func() { err = x.run(sspy, vspy) }) {
+					continue
+				}
+				rec.Eval(1)
+				rec.Event("hostile-argument-cases")
+				rec.Class(cell)
+				// (with an empty signature the structure exists; only success is a violation there: an accepting
+				//  spy verifier would mean a message without signature verifies)
+				emptySig := strings.Contains(x.name, "signature)")
+				if err == nil || (!emptySig && (sspy.Calls != 0 || vspy.Calls != 0)) {
+					rec.Violate("no-structure", cell, fmt.Sprintf("err=%v, signer calls=%d, verifier calls=%d (a key was consulted, or the call succeeded, although there is no payload / signature to build the structure from)", err, sspy.Calls, vspy.Calls), in)
+				}
+			}
+		}
+	}
+
+	rec.Require("hostile-argument-cases", 100)
 	rec.Require("large-field-cases", 60)
 	rec.Require("Sign1Message.Sign", 100)
 	rec.Require("Sign1Message.Verify", 100)
